@@ -217,7 +217,7 @@ lazy_static! {
 [\ ]
 \(                 # open ( which the previous file name may not contain in case a name does (which is more likely)
 (
-    [^\ ](?:.*[^\ ])?   # author name
+    [^\ ](?:.*?[^\ ])?? # author name (as short as possible: the code may quote a blame line)
 )
 [\ ]+
 (                  # timestamp
